@@ -2,7 +2,7 @@
 ENTRY = {'coq_dir': 'C19',
  'harness': 'c19',
  'coq_deps': ['C18', 'C03'],
- 'cases': {'quick': 14000, 'thorough': 400000},
+ 'cases': {'quick': 14000, 'thorough': 350000},
  'harness_timeout': 3000,
  'consts': ['C19_KAD_MAX_ADDRESSES', 'C19_KAD_DEFAULT_MAX_MESSAGE_SIZE', 'C19_IDENTIFY_PAYLOAD_SIZE',
             'C19_BITSWAP_MAX_MESSAGE_SIZE', 'C03_MAX_PROTOCOLS', 'C03_MAX_LEN_BYTES', 'REPLICATION_FACTOR',
@@ -63,12 +63,11 @@ ENTRY = {'coq_dir': 'C19',
                'stream (the check precedes the allocation), frames come out of the stream, send-then-receive is the identity; '
                'read_payload_size returns sizes < 2^64 in 1..10 bytes and inverts the encoder; multistream LengthDelimited never sizes '
                'its buffer above 16383 under any read script; Message::decode yields <= 1000 protocols, materialises <= |input| and its '
-               'loop fuel is irrelevant. Panic-freedom of the Rust code is established by differential testing against these total '
+               'loop fuel is irrelevant, and the ls response (Message::Protocols, up to 1000 names) round-trips. Panic-freedom of the Rust code is established by differential testing against these total '
                'functions (tested, not proved).',
  'level_note': 'Tested only (diffed against "returns, no panic, within the allocation bound", no model of their own): '
                'Multiaddr::try_from, Cid::read_bytes, the curve-point check, multihash digests. Modelled and diffed but tied to the '
-               'inline Rust code by transcription: identify address filtering, bitswap wantlist/presence filtering. Not proved: the '
-               'ls-response (Message::Protocols) round trip (differentially tested incl. the 46-byte-name and 1000-protocol edges); '
+               'inline Rust code by transcription: identify address filtering, bitswap wantlist/presence filtering. Not proved: '
                'UTF-8 validation is modelled (table 3-7) without theorems; the numeric allocation constants are measurements. '
                'Left out: the webrtc.proto message, PrivateKey of keys.proto, TLS certificate parsing, yamux / noise frame decoding '
                '(C02), listener_select/dialer_select state machines and webrtc_listener_negotiate / register_response (C03 runs and '
